@@ -115,9 +115,50 @@ def check_key_cap(b, O2):
                             for st in b.blocks[q].stmts:
                                 if st.k == 'assign' and E.target(st.place) == v and E.rvalue(st.rv) == y:
                                     why = 'clamped: if %s > %s { %s = %s }' % (show(v), show(y)[:40], show(v), show(y)[:40])
+                if why is None:
+                    why = phi_capped(cfg, E, b, v)
                 if why:
                     O2.ok(sample={'heap_key': sv[:60], 'capped_by': why, 'at': b.loc(s.sp)})
                 else:
                     O2.violation(('key-not-capped', b.path), 'the calculated time %s used as heap key at %s is not capped at the reception time of the message: a message whose lifecycle start + timestamp lies after its reception is sorted (and held back) by that future time' % (sv[:60], b.loc(s.sp)),
                                  where=b.loc(s.sp))
     O2.floor('SortedDltMessage constructions in ' + b.path, n, 1)
+
+
+def phi_capped(cfg, E, b, v):
+    """`let key = if raw > recv { recv } else { raw }`: the key is a local whose every definition is the reception time
+    itself or a value stored under a guard `value <= reception time`"""
+    from expr import show
+    import guards
+    if not (isinstance(v, tuple) and v[0] == 'place' and len(v) == 2):
+        return None
+    ls = b.locals_named(v[1])
+    if len(ls) != 1:
+        return None
+    defs = cfg.defs.get(ls[0], [])
+    if len(defs) < 2:
+        return None
+    for (bi, si, d) in defs:
+        if si == 'call':
+            return None
+        e = E.rvalue(d.rv)
+        if isinstance(e, tuple) and e[0] in ('place', 'proj') and 'reception_time_us' in show(e):
+            continue
+        ok = False
+        for (c, truth, D) in guards.known(cfg, E, bi):
+            if truth not in (True, False):
+                continue
+            c2, t2 = guards.normalise(c, truth)
+            if not (isinstance(c2, tuple) and c2[0] == 'bin' and t2 is True):
+                continue
+            if c2[1] in ('Le', 'Lt'):
+                lo, hi = c2[2], c2[3]
+            elif c2[1] in ('Ge', 'Gt'):
+                lo, hi = c2[3], c2[2]
+            else:
+                continue
+            if lo == e and 'reception_time_us' in show(hi):
+                ok = True
+        if not ok:
+            return None
+    return 'every definition of %s is the reception time or a value guarded <= reception time' % v[1]
